@@ -198,7 +198,31 @@ def handlePrint (ty : String) (args : List String) : Option String :=
   | "Signature", ["KeyPath", s] => do pure (encStr (Signature.print (.keyPath (← decStr s))))
   | _, _ => none
 
+/-- `sub=<subpath()> url=<to_branch_url(): some <text> | none | PANIC>` -/
+def showBranchUrl (v : Vcs) : String :=
+  let u := match Vcs.toBranchUrl v with
+    | .ok (some t) => s!"some {encStr t}"
+    | .ok none => "none"
+    | .panic _ => "PANIC"
+  s!"sub={encOpt (Vcs.subpath v)} url={u}"
+
+/-- `vcs.branchurl v <variant> <fields…>` on a value; `vcs.branchurl f <name> <value>` on the result
+    of `Vcs::from_field` -/
+def handleBranchUrl (args : List String) : Option String :=
+  match args with
+  | "v" :: rest => do
+    let v ← decVcs rest
+    pure (showBranchUrl v)
+  | ["f", n, t] => do
+    let n ← decStr n
+    let s ← decStr t
+    pure (match Vcs.fromField n s with
+      | some v => s!"ok {showVcs v} {showBranchUrl v}"
+      | none => "err")
+  | _ => none
+
 def handle (op : String) (args : List String) : Option String :=
+  if op == "vcs.branchurl" then handleBranchUrl args else
   match op.splitOn "." with
   | ["codec", ty, "parse"] => handleParse ty args
   | ["codec", ty, "print"] => handlePrint ty args
